@@ -417,6 +417,40 @@ impl BodyPlan {
         }
     }
 
+    /// Another value for a field of the head (first line whose name matches, any letter case); every recorded
+    /// offset moves with it.  The caller re-derives segmentation and script from the new wire.
+    pub fn replace_head_field_value(&mut self, name: &str, value: &str) -> bool {
+        let head = self.wire.bytes[..self.wire.head_len].to_vec();
+        let lower = head.to_ascii_lowercase();
+        let pat = format!("\r\n{}:", name.to_ascii_lowercase()).into_bytes();
+        let Some(p) = lower.windows(pat.len()).position(|w| w == &pat[..]) else { return false };
+        let vstart = p + pat.len();
+        let vend = vstart + head[vstart..].windows(2).position(|w| w == b"\r\n").unwrap_or(0);
+        let new: Vec<u8> = format!(" {}", value).into_bytes();
+        let old_len = vend - vstart;
+        self.wire.bytes.splice(vstart..vend, new.iter().copied());
+        let shift = |x: &mut usize| {
+            if *x >= vend {
+                *x = *x + new.len() - old_len;
+            }
+        };
+        shift(&mut self.wire.head_len);
+        shift(&mut self.wire.frame_end);
+        for t in self.wire.targets.iter_mut() {
+            shift(t);
+        }
+        for c in self.wire.chunk_map.iter_mut() {
+            shift(&mut c.0);
+            shift(&mut c.1);
+            shift(&mut c.2);
+        }
+        for r in self.wire.framing_ranges.iter_mut() {
+            shift(&mut r.0);
+            shift(&mut r.1);
+        }
+        true
+    }
+
     /// Re-encode a chunked body with a bare LF after every chunk's data (and, for every second chunk, after
     /// its size line): same payload, same chunking.  Lenient readers take it, strict ones refuse it; the
     /// caller re-derives segmentation and script from the new wire.
